@@ -8,13 +8,19 @@ p@p@gstrf_threadarg_t in_arg; superlumt_options_t in_o; pxgstrf_shared_t in_shar
 pan_status_t in_pan[CAP+1]; int_t in_spin[CAP+1], in_etree[CAP+1], in_super_bnd[CAP+1], in_perm_r[CAP], in_xlsub[CAP+1], in_xlsub_end[CAP+1], in_lsub[CAP];
 procstat_t in_procstat[2]; panstat_t in_panstat[CAP+1]; cp_panel_t in_cp[CAP+1];
 static int_t pool_i[64]; static @T@ pool_d[64];
+/* C18: the three stamp arrays of the thread's work space must be reset before use, whatever the work space held and whatever nprocs is */
+static int_t pool_lbusy[CAP], pool_marker[CAP * NO_MARKER], pool_spa[CAP * W]; int g_fill_lbusy, g_fill_marker, g_fill_spa;
 int_t *intMalloc(int_t n) { int_t *p = malloc((size_t)(n > 0 ? n : 1) * sizeof(int_t)); __CPROVER_assume(p != NULL); return p; }
 void superlu_free(void *p) { free(p); }
-void ifill(int_t *a, int_t alen, int_t v) { }
+void ifill(int_t *a, int_t alen, int_t v) {
+  if (a == pool_lbusy) g_fill_lbusy = (alen == in_A.nrow && v == EMPTY);
+  if (a == pool_marker) g_fill_marker = (alen == in_A.nrow * NO_MARKER && v == EMPTY);
+  if (a == pool_spa) g_fill_spa = (alen == in_A.nrow * in_o.panel_size && v == EMPTY);
+}
 double SuperLU_timer_(void) { double t; return t; }
 int_t p@p@gstrf_WorkInit(int_t n, int_t w, int_t **iw, @T@ **dw) { *iw = pool_i; *dw = pool_d; return 0; }
 void pxgstrf_SetIWork(int_t n, int_t w, int_t *iwork, int_t **segrep, int_t **parent, int_t **xplore, int_t **repfnz, int_t **panel_lsub, int_t **marker, int_t **lbusy)
-{ *segrep = *parent = *xplore = *repfnz = *panel_lsub = *marker = *lbusy = pool_i; }
+{ *segrep = *parent = *xplore = *repfnz = *panel_lsub = pool_i; *marker = pool_marker; *lbusy = pool_lbusy; }
 void p@p@gstrf_SetRWork(int_t n, int_t w, @T@ *dwork, @T@ **dense, @T@ **tempv) { *dense = *tempv = pool_d; }
 void p@p@gstrf_WorkFree(int_t *iwork, @T@ *dwork, GlobalLU_t *Glu) { }
 float p@p@gstrf_memory_use(const int_t a, const int_t b, const int_t c) { return 0; }
@@ -33,8 +39,8 @@ static int_t report(int_t jcol) {   /* a zero pivot in column jcol (or none): tr
 }
 int_t p@p@gstrf_factor_snode(const int_t pnum, const int_t jcol, SuperMatrix *A, const @R@ u, yes_no_t *usepr, int_t *perm_r, int_t *inv_perm_r, int_t *inv_perm_c, int_t *xprune, int_t *marker, int_t *col_lsub, @T@ *dense, @T@ *tempv, pxgstrf_shared_t *sh, int_t *info)
 { __CPROVER_assert(usepr == &in_o.usepr, "the pivot step gets the SHARED reuse flag of the options, so that dropping pivot reuse is seen by every thread (C08)"); g_calls++; *info = report(jcol + (nondet_int_t() ? 0 : in_pan[jcol].size - 1)); return 0; }
-void pxgstrf_mark_busy_descends(int_t pnum, int_t jcol, int_t *etree, pxgstrf_shared_t *sh, int_t *bcol, int_t *lbusy) { }
-void p@p@gstrf_panel_dfs(const int_t a, const int_t b, const int_t c, const int_t d, SuperMatrix *A, int_t *p1, int_t *p2, int_t *p3, int_t *p4, int_t *nseg, int_t *p6, int_t *p7, int_t *p8, int_t *p9, int_t *p10, int_t *p11, int_t *p12, int_t *p13, @T@ *dn, GlobalLU_t *G) { *nseg = 0; }
+void pxgstrf_mark_busy_descends(int_t pnum, int_t jcol, int_t *etree, pxgstrf_shared_t *sh, int_t *bcol, int_t *lbusy) { __CPROVER_assert(g_fill_lbusy && g_fill_marker, "stamp arrays lbusy / marker were reset to EMPTY over all their entries before the first panel is processed (C18: nothing left in the work space by earlier calls is read)"); __CPROVER_assert(lbusy == pool_lbusy, "busy-descendant stamps are the thread's own"); }
+void p@p@gstrf_panel_dfs(const int_t a, const int_t b, const int_t c, const int_t d, SuperMatrix *A, int_t *p1, int_t *p2, int_t *p3, int_t *p4, int_t *nseg, int_t *p6, int_t *p7, int_t *p8, int_t *p9, int_t *p10, int_t *p11, int_t *p12, int_t *p13, @T@ *dn, GlobalLU_t *G) { __CPROVER_assert(g_fill_lbusy && g_fill_marker, "stamp arrays lbusy / marker were reset to EMPTY over all their entries before the first panel is processed (C18: nothing left in the work space by earlier calls is read)"); *nseg = 0; }
 void p@p@gstrf_panel_bmod(const int_t a, const int_t b, const int_t c, const int_t d, const int_t e, int_t *p1, int_t *p2, int_t *p3, int_t *p4, int_t *p5, int_t *p6, int_t *p7, int_t *p8, @T@ *d1, @T@ *d2, pxgstrf_shared_t *sh) { }
 void pxgstrf_super_bnd_dfs(const int_t a, const int_t b, const int_t c, const int_t d, const int_t e, SuperMatrix *A, int_t *p1, int_t *p2, int_t *p3, int_t *p4, int_t *p5, int_t *p6, int_t *p7, pxgstrf_shared_t *sh) { }
 int_t p@p@gstrf_column_dfs(const int_t a, const int_t b, const int_t c, const int_t d, int_t *p1, int_t *p2, int_t *p3, int_t e, int_t *p4, int_t *p5, int_t *p6, int_t *p7, int_t *p8, int_t *p9, int_t *p10, int_t *p11, pxgstrf_shared_t *sh) { return 0; }
